@@ -449,6 +449,7 @@ type AtSpec struct {
 	After  bool   // evaluated after the call (result bound) instead of before
 	C      Clause
 	SetLHS Expr // for "set": ghost variable or ghost field application
+	Case   int  // for Kind "select": the case index
 }
 
 type LetDef struct {
@@ -510,13 +511,15 @@ type SpecSet struct {
 	ChanInvs  map[string]*PureFn // "fsm.readerMsgCh" -> predicate over v
 	Axioms    []Clause
 	UFs       map[string]*UFDecl
+	Guarded   map[string]string // "Server.peers" -> "Server.mu"
+	Joins     map[string]string // "fsm.doneCh" -> ghost field cleared on the owner when a receive from it returns
 }
 
 func newSpecSet() *SpecSet {
 	return &SpecSet{
 		Contracts: map[string]*Contract{}, Externs: map[string]*Contract{}, Callbacks: map[string]*Contract{},
 		Pures: map[string]*PureFn{}, Ghosts: map[string]*GhostField{}, ChanInvs: map[string]*PureFn{},
-		UFs: map[string]*UFDecl{},
+		UFs: map[string]*UFDecl{}, Guarded: map[string]string{}, Joins: map[string]string{},
 	}
 }
 
@@ -562,7 +565,7 @@ func loadSpecLines(path string) ([]specLine, error) {
 }
 
 var clauseKeywords = map[string]bool{
-	"func": true, "extern": true, "callback": true, "pure": true, "ghostfield": true, "chaninv": true, "axiom": true, "uf": true, "ghostvar": true,
+	"func": true, "extern": true, "callback": true, "pure": true, "ghostfield": true, "chaninv": true, "axiom": true, "uf": true, "ghostvar": true, "guardedby": true, "joins": true,
 	"requires": true, "ensures": true, "modifies": true, "let": true, "ghost": true, "returns": true,
 	"at": true, "trusted": true, "noinline": true, "params": true,
 }
@@ -715,6 +718,19 @@ func (ss *SpecSet) parseLine(l specLine, cur **Contract) error {
 			return fmt.Errorf("unknown ghost sort %q", srt)
 		}
 		ss.Ghosts[name] = g
+		*cur = nil
+		return nil
+	case "joins":
+		// joins Type.chanField ghostField : the channel is closed only by the
+		// deferred close of the goroutine whose "running" flag is ghostField
+		f, g := splitWord(rest)
+		ss.Joins[f] = strings.TrimSpace(g)
+		*cur = nil
+		return nil
+	case "guardedby":
+		// guardedby Type.field Type.mutexField
+		f, m := splitWord(rest)
+		ss.Guarded[f] = strings.TrimSpace(m)
 		*cur = nil
 		return nil
 	case "uf":
@@ -874,6 +890,27 @@ func (ss *SpecSet) parseLine(l specLine, cur **Contract) error {
 				}
 				a.Ord = n
 			}
+		} else if strings.HasPrefix(kind, "select") {
+			a.Kind = "select"
+			a.Ord = 0
+			if k := strings.Index(kind, "#"); k >= 0 {
+				n, err := strconv.Atoi(kind[k+1:])
+				if err != nil {
+					return err
+				}
+				a.Ord = n
+			}
+			var cw, cn string
+			cw, r2 = splitWord(r2)
+			cn, r2 = splitWord(r2)
+			if cw != "case" {
+				return fmt.Errorf("expected `case N` after at select")
+			}
+			n, err := strconv.Atoi(cn)
+			if err != nil {
+				return err
+			}
+			a.Case = n
 		} else {
 			a.Kind = kind
 			var tgt string
